@@ -444,6 +444,11 @@ def model_input(case, impl):
         lines.append(f"truth {g} {int(v)}")
     lines.extend(case.get("raw", []))  # malformed lines: the driver must refuse each with `bad-op`
     for r in impl["recs"]:
+        # the branch an `If` takes is data (a condition fed by another `If` may be False): observed
+        for g in sorted(int(g) for g in w["ifs"]):
+            v = _get(r["vals_after"]["out"], g)
+            if v in ("True", "False"):
+                lines.append(f"truth {g} {int(v == 'True')}")
         for t, (order, chain) in sorted((int(t), oc) for t, oc in r["obs"].items()):
             lines.append(f"obs {t} " + " ".join(map(str, order)) + " / " + " ".join(map(str, chain)))
         lines.append(f"pull {r['t']} {int(r['parents'])}")
@@ -700,7 +705,7 @@ def place_executor(rng, case, t, par):
 
 
 def gen_cases(rng, tier):
-    n_scenes = 150 if tier == "quick" else 900
+    n_scenes = 150 if tier == "quick" else 750
     for k in range(n_scenes):
         sc = gen_scene(rng, max_leaf=4 if tier == "quick" else 5, clean=(k % 2 == 0))
         leaves = sc["_meta"]["leaves"]
@@ -898,7 +903,10 @@ def _oracle_rec(case, w, rec, fids):
     outside = [g for g in log if g not in allowed]
     if outside:
         bc0 = _ik(rec["before"]["conns"])
-        trig = _trigger(outside[0], bc0, drivers, log, failed_after, ifs)
+        out_after = _ik(rec["vals_after"]["out"])
+        branch = {g: (out_after.get(g) == "True") if out_after.get(g) in ("True", "False") else v
+                  for g, v in ifs.items()}
+        trig = _trigger(outside[0], bc0, drivers, log, failed_after, branch)
         # the hypotheses of the partial theorem (C11_exact_partial): when they hold nothing is excusable
         only_ran = all(not bc0.get(6 * i + k) for i in allowed for k in (3, 4, 5))
         driving = {parent.get(a) for a in levels} - {None}
